@@ -648,7 +648,7 @@ def gen_history(rng, with_slices, nops):
             ops.append(["add", gen_wev(rng, zone, lo, hi)])
             adds.append(len(ops) - 1)
         elif r < 0.3:
-            ops.append(["addmany", [gen_wev(rng, zone, lo, hi) for _ in range(rng.choice([1, 2, 3]))]])
+            ops.append(["addmany", [gen_wev(rng, zone, lo, hi) for _ in range(rng.choice([1, 2, 3, 3, 11, 12, 23]))]])
             adds.append(len(ops) - 1)
         elif r < 0.42:
             ops.append(["addrec", gen_wpat(rng, zone, lo, hi)])
